@@ -211,7 +211,14 @@ def variations(ctx, rr):
         reorder = [c for c in ast.walk(r_.value) if isinstance(c, ast.Call) and ((isinstance(c.func, ast.Name) and c.func.id in ('sorted', 'reversed', 'set', 'frozenset'))
                                                                               or (isinstance(c.func, ast.Attribute) and c.func.attr in ('sort', 'reverse')))] if r_.value is not None else []
         if not is_call and not reorder:
-            continue        # some other shape: the argument obligation above still holds; order not decided here
+            # a return that does not come from lru_variations at all: a short cut that decides by itself what the class is
+            from_lv = r_.value is not None and any(isinstance(c, ast.Call) and lv in P.targets(c) for c in ast.walk(r_.value))
+            if not from_lv and not (isinstance(r_.value, ast.Name) and r_.value.id in sd_ep and any(isinstance(c, ast.Call) and lv in P.targets(c) for c in ast.walk(sd_ep[r_.value.id]))):
+                rr.ob(ctx.where(ep, r_), 'expand_prefix answers with the expansion computed by lru_variations', ok=False)
+                rr.fail(ctx.finding('R-VARIATIONS', ep, r_, 'Traph.expand_prefix answers `%s` without asking lru_variations: for the prefixes taking this short cut the scheme twin (and the '
+                                    'www form) is missing, so the class depends on which variation is expanded' % ast.unparse(r_.value)[:40] if r_.value is not None else 'None',
+                                    stmt='expand_prefix short cut'))
+            continue
         rr.ob(ctx.where(ep, r_), 'expand_prefix returns the expansion in the order lru_variations built it', ok=not reorder)
         if reorder:
             rr.fail(ctx.finding('R-VARIATIONS', ep, r_, 'Traph.expand_prefix re-orders the expansion (`%s`): the given prefix is no longer listed first, and the order in which the variations '
@@ -269,6 +276,47 @@ def variations(ctx, rr):
             if not ok:
                 rr.fail(ctx.finding('R-VARIATIONS', lv, x, 'value `%s` may be None (no scheme variation) and is used unguarded: the expansion '
                                     'fails or lists None' % x.id))
+    # ---- the www form is worked out whether or not the scheme has a twin: no return under "no scheme variation"
+    for r_ in P.own(lv, ast.Return):
+        facts = gf.facts_at(r_.value) if r_.value is not None else None
+        if facts is None:
+            facts = gf.facts_at(r_) if hasattr(gf, 'facts_at') else None
+        if not facts:
+            continue
+        twinless = [f for f in facts if f[0] == 'F' and f[1] in maybe_none]
+        if twinless:
+            rr.ob(ctx.where(lv, r_), 'lru_variations does not stop at a scheme without twin', ok=False)
+            rr.fail(ctx.finding('R-VARIATIONS', lv, r_, 'lru_variations returns as soon as the scheme has no http(s) twin (`%s` empty): for other schemes the www / non-www form is never '
+                                'produced, so expanding the www form gives another class than expanding the bare one' % twinless[0][1], stmt='return without www'))
+    # ---- (no-raise) a stem is taken apart with a bounded split when the pieces are unpacked into a fixed number of names
+    for u in (hv, lv):
+        for x in ast.walk(u.node):
+            tgt, src = None, None
+            if isinstance(x, ast.comprehension):
+                tgt, src = x.target, x.iter
+            elif isinstance(x, ast.For) and P.owner_of(u.node, x) is u.node:
+                tgt, src = x.target, x.iter
+            elif isinstance(x, ast.Assign) and len(x.targets) == 1:
+                tgt, src = x.targets[0], x.value
+            if not (isinstance(tgt, (ast.Tuple, ast.List)) and not any(isinstance(e, ast.Starred) for e in tgt.elts)):
+                continue
+            arity = len(tgt.elts)
+            # the unpacked value: a split call itself, or the elements of a comprehension / list of split calls
+            cands = []
+            if isinstance(src, ast.Call):
+                cands = [src]
+            elif isinstance(src, ast.Name):
+                for a in P.own(u, ast.Assign):
+                    if any(isinstance(t, ast.Name) and t.id == src.id for t in a.targets) and isinstance(a.value, (ast.ListComp, ast.GeneratorExp)):
+                        cands.append(a.value.elt)
+            elif isinstance(src, (ast.ListComp, ast.GeneratorExp)):
+                cands = [src.elt]
+            for c in cands:
+                if isinstance(c, ast.Call) and isinstance(c.func, ast.Attribute) and c.func.attr in ('split', 'rsplit') and c.args \
+                        and not (len(c.args) > 1 or any(k.arg == 'maxsplit' for k in c.keywords)):
+                    rr.ob(ctx.where(u, c), '`%s` unpacked into %d names is bounded to %d pieces' % (ast.unparse(c)[:30], arity, arity), ok=False)
+                    rr.fail(ctx.finding('R-VARIATIONS', u, c, '`%s` is unpacked into %d names but splits at every separator: a stem whose value contains the separator (a port-like path, an '
+                                        'IPv6 host, a query with `:`) makes the expansion raise ValueError' % (ast.unparse(c)[:40], arity), stmt='unbounded split unpacked'))
     # ---- (anchoring) the scheme test and rewrite look at the start of the LRU only
     p = hv.params[0]
     n_anchor = 0
@@ -288,6 +336,48 @@ def variations(ctx, rr):
             elif t.func.attr == 'startswith':
                 n_anchor += 1
                 rr.ob(ctx.where(hv, t), 'scheme test `%s` is anchored at the start of the LRU' % ast.unparse(t), ok=True)
+    if n_anchor == 0:
+        # a rewrite through a regular expression: `.` does not match a line break unless DOTALL is set, and stems may contain any byte
+        import re as _re3
+        pats = []
+        for st_ in [x for x in P.modules[hv.module].body if isinstance(x, ast.Assign)] + list(P.own(hv, ast.Assign)) + [ast.Expr(value=c) for c in P.own(hv, ast.Call)]:
+            for c in ast.walk(st_):
+                if isinstance(c, ast.Call) and isinstance(c.func, ast.Attribute) and c.func.attr in ('compile', 'match', 'sub', 'search', 'fullmatch') \
+                        and isinstance(c.func.value, ast.Name) and c.func.value.id == 're' and c.args and isinstance(c.args[0], ast.Constant) and isinstance(c.args[0].value, (bytes, str)):
+                    flags = ' '.join(ast.unparse(a) for a in c.args[1:]) + ' '.join(ast.unparse(k.value) for k in c.keywords)
+                    pats.append((c, c.args[0].value, flags))
+        used = {x.id for x in ast.walk(hv.node) if isinstance(x, ast.Name)}
+        for c, pat, flags in pats:
+            par_ = P.parent.get(id(c))
+            if isinstance(par_, ast.Assign) and par_ in P.modules[hv.module].body and not any(isinstance(t, ast.Name) and t.id in used for t in par_.targets):
+                continue
+            import re._parser as _sp
+            try:
+                tree_ = _sp.parse(pat)
+            except Exception:
+                continue
+
+            def has_any(t_):
+                for op, av in t_:
+                    if str(op) == 'ANY':
+                        return True
+                    if isinstance(av, tuple):
+                        for z in av:
+                            if hasattr(z, 'data') and has_any(z):
+                                return True
+                            if isinstance(z, list):
+                                for zz in z:
+                                    if hasattr(zz, 'data') and has_any(zz):
+                                        return True
+                    elif hasattr(av, 'data') and has_any(av):
+                        return True
+                return False
+            dotall = 'DOTALL' in flags or 're.S' in flags or bool(tree_.state.flags & _re3.DOTALL)
+            if has_any(tree_) and not dotall:
+                n_anchor += 2
+                rr.ob(ctx.where(hv, c), 'the scheme pattern carries the rest of the LRU over unchanged', ok=False)
+                rr.fail(ctx.finding('R-VARIATIONS', hv, c, 'https_variation rewrites the scheme with the pattern %r: `.` stops at a line break (no DOTALL), so an LRU with a newline byte in a '
+                                    'later stem gets a truncated twin - more than the scheme stem changes and the class is not closed' % pat, stmt='scheme pattern dot'))
     rr.require(n_anchor, 2, 'scheme tests/rewrites in https_variation')
     # the scheme test names a whole stem (separator included) and the rewrite cuts exactly what the test matched
     from ..consts import const_env as _cenv
